@@ -7,6 +7,12 @@ func init() {
 	const sa = "nasConvert/ServiceAreaList.go"
 	const ld = "nasConvert/Ladn.go"
 	addMutants(
+		Mutant{Name: "c13-tai-partial-17", Prop: "C13", File: "nasConvert/TaiList.go", Old: "const maxNumOfElementsInPartialList = 16", New: "const maxNumOfElementsInPartialList = 17",
+			Expect: "dec.tai-list / nasConvert.TaiListToNas / 17 TAIs", Why: "partial lists of 17 elements: the number-of-elements field takes the unused value 16"},
+		Mutant{Name: "c13-tai-unsplit-regression", Prop: "C13", File: "nasConvert/TaiList.go", Old: "\t\tif len(partialList) > maxNumOfElementsInPartialList {", New: "\t\tif false {",
+			Expect: "dec.tai-list / nasConvert.TaiListToNas", Why: "the repaired defect returns: more than 16 TAIs in one partial list"},
+		Mutant{Name: "c13-tai-second-partial-plmn", Prop: "C13", File: "nasConvert/TaiList.go", Old: "\t\t\tplmnNas := PlmnIDToNas(*plmnId)\n\t\t\ttaiListNas = append(taiListNas, plmnNas...)\n", New: "\t\t\tif len(taiListNas) == 1 {\n\t\t\t\ttaiListNas = append(taiListNas, PlmnIDToNas(*plmnId)...)\n\t\t\t}\n",
+			Expect: "dec.tai-list / nasConvert.TaiListToNas", Why: "the PLMN is written for the first partial list only"},
 		Mutant{Name: "c13-snssai-length-octet", Prop: "C13", File: sn, Old: "\t\tbuf = append(buf, 0x04)", New: "\t\tbuf = append(buf, 0x03)",
 			Expect: "lay.snssai / nasConvert.SnssaiToNas", Why: "length octet does not count the three SD octets plus SST"},
 		Mutant{Name: "c13-rejected-length-nibble", Prop: "C13", File: sn, Old: "(0x04<<4)+rejectCause", New: "(0x04<<3)+rejectCause",
